@@ -68,6 +68,18 @@ def coq_files():
     return sorted(out)
 
 
+class coq_lock:
+    """Serialises everything that writes under coq/ (several checks may run concurrently)."""
+    def __enter__(self):
+        import fcntl
+        self.f = open(os.path.join(COQ, ".lock"), "w")
+        fcntl.flock(self.f, fcntl.LOCK_EX)
+    def __exit__(self, *a):
+        import fcntl
+        fcntl.flock(self.f, fcntl.LOCK_UN)
+        self.f.close()
+
+
 def ensure_makefile():
     files = coq_files()
     stamp = os.path.join(COQ, ".files.stamp")
@@ -116,6 +128,11 @@ def forbidden_scan():
 
 def proof_step(pid, thorough=False):
     """Returns dict(ok, obligations, discharged, theorems, problems, log, checker_cmd)."""
+    with coq_lock():
+        return _proof_step(pid, thorough)
+
+
+def _proof_step(pid, thorough):
     ensure_makefile()
     prop_rel = "theories/Properties/%s.v" % pid
     prop_src = open(os.path.join(COQ, prop_rel)).read()
@@ -196,8 +213,9 @@ def build_driver(pid):
     for d in deps:
         for mod in d.split():
             targets.append("theories/" + mod.replace(".", "/") + ".vo")
-    ensure_makefile()
-    rc, out = sh(["make", "-j8"] + targets, cwd=COQ, timeout=3000)
+    with coq_lock():
+        ensure_makefile()
+        rc, out = sh(["make", "-j8"] + targets, cwd=COQ, timeout=3000)
     if rc != 0:
         raise RuntimeError("model build failed:\n" + out[-3000:])
     srcs = [ext, os.path.join(OCAML, "common.ml"), os.path.join(OCAML, "drv_%s.ml" % low)] + \
@@ -383,7 +401,9 @@ def main_check(pid, argv):
     low = pid.lower()
     sys.path.insert(0, os.path.join(ROOT, "props"))
     mod = importlib.import_module(low)
-    rundir = os.path.join(ROOT, "run", pid)
+    alt = "" if REPO == "/repo" else "alt-" + hashlib.sha256(REPO.encode()).hexdigest()[:10]
+    rundir = os.path.join(ROOT, "run", alt, pid) if alt else os.path.join(ROOT, "run", pid)
+    evdir = os.path.join(ROOT, "run", alt, "evidence") if alt else os.path.join(ROOT, "evidence")
     os.makedirs(rundir, exist_ok=True)
     t0 = time.time()
 
@@ -439,10 +459,14 @@ def main_check(pid, argv):
         classes = {}
         for r in oracle_fail:
             classes.setdefault(r[4], r)
+        reported = set()
         for ver, (prof, c, i, m, v) in list(classes.items())[:3]:
             def failing(r, ver=ver):
                 return (not oracle_ok(r[3])) and known_id(r[3]) not in known_ids
             small = shrink_case(pid, mod, c, rundir, failing)
+            if small in reported:
+                continue
+            reported.add(small)
             rr = run_both(pid, mod, [small], rundir, tag="final", profile=prof)[0]
             n += 1
             path = write_replay(pid, rundir, n, "oracle", rr[0], rr[1], rr[2], rr[3],
@@ -541,8 +565,8 @@ def main_check(pid, argv):
     )
     if hasattr(mod, "extra_evidence"):
         ev["coverage"].update(mod.extra_evidence(results))
-    os.makedirs(os.path.join(ROOT, "evidence"), exist_ok=True)
-    json.dump(ev, open(os.path.join(ROOT, "evidence", "%s.json" % pid), "w"), indent=1)
+    os.makedirs(evdir, exist_ok=True)
+    json.dump(ev, open(os.path.join(evdir, "%s.json" % pid), "w"), indent=1)
 
     for l in known_lines:
         print(l)
